@@ -261,6 +261,12 @@ def gen(args):
         if rec is not None:
             rec["src"] = "heavy terminal atoms"
         return rec if rec is not None else {"__none__": True, "meta": {}}
+    if nmols == 1 and rng.random() < 0.08 and len(row["ops"]) <= 16:
+        # solid dihydrogen: the only bond is between two hydrogens
+        rec = xtal.gen_molecular(rng, row, nmols=rng.choice([1, 2]), sizes=(2,), n=48, h2=True, vol_per_atom=rng.choice([14.0, 18.0]), max_tries=120)
+        if rec is not None:
+            rec["src"] = "dihydrogen"
+            return rec
     if nmols == 2 and rng.random() < 0.5:
         sizes = (sizes[0],) if isinstance(sizes, tuple) and len(sizes) else sizes       # two molecules of one size
     rec = xtal.gen_molecular(rng, row, nmols=nmols, sizes=sizes)
